@@ -254,9 +254,9 @@ def c14(c):
     quick = c.tier == "quick"
     c.small("MC_Transcript", cfg="MC_Transcript.cfg")
     c.small("MC_Transcript", cfg="MC_Transcript_cap.cfg", expect_violation=True)
-    n = 300 if quick else 6000
+    n = 300 if quick else 4000
     progs = c.generate("Gen_Transcript", env={"VERIF_DEPTH": 12 if quick else 40}, simulate="num=%d" % n)
-    files = c.drive("transcript", progs, shards=max(1, min(vlib.NCPU, n // 20)))
+    files = c.drive("transcript", progs, shards=max(1, min(vlib.NCPU, n // 20)), timeout=7200)
     c.validate("Trace_Transcript", files, heap="6g")
     need = ["challenge", "challenge-near-kr", "msg", "scalar", "point", "domsep"]
     missing = [k for k in need if c.judged.get(k, 0) == 0]
